@@ -40,6 +40,8 @@ def can_bind_shared(p):
     finally: s.close()
 
 
+STUCK = [0]
+PATIENCE = 10          # seconds after which start() / stop() on loopback sockets counts as never returning
 async def settle():
     for _ in range(3): await asyncio.sleep(0)
 
@@ -47,7 +49,7 @@ async def settle():
 async def run_seq(ports, acts):
     got = []; b = SwitcherBridge(lambda d: got.append(d), list(ports)); foreign = {}
     others = [SwitcherBridge(lambda d: None, list(ports)), SwitcherBridge(lambda d: None, list(ports))]    # same ports, never started
-    tx = socket.socket(socket.AF_INET, socket.SOCK_DGRAM); out = ""; late = 0; stopped_at = None
+    tx = socket.socket(socket.AF_INET, socket.SOCK_DGRAM); out = ""; late = 0; stopped_at = None; odd = []
     try:
         for k, i in acts:
             if k == 5:
@@ -60,10 +62,14 @@ async def run_seq(ports, acts):
             stopped_at = None
             o = "."; p = ports[i] if i < len(ports) else None
             if k == 0:
-                try: await b.start(); o = "s"
+                try: await asyncio.wait_for(b.start(), PATIENCE); o = "s"
                 except OSError: o = "!"
+                except asyncio.TimeoutError: out += "T|"; break           # start() never returned: the rest of the sequence is not run
+                except Exception as e: o = "E"; odd.append("start() raised " + type(e).__name__)        # not the error of the failed bind
             elif k == 1:
-                await b.stop(); stopped_at = len(got)
+                try: await asyncio.wait_for(b.stop(), PATIENCE); stopped_at = len(got)
+                except asyncio.TimeoutError: out += "T|"; break           # stop() never returned
+                except Exception as e: o = "E"; odd.append("stop() raised " + type(e).__name__); stopped_at = len(got)
             elif k == 2:
                 if p not in foreign:
                     s = socket.socket(socket.AF_INET, socket.SOCK_DGRAM)
@@ -106,7 +112,9 @@ async def run_seq(ports, acts):
             held = "".join("F" if q in foreign else ("-" if can_bind(q) else "S" if can_bind_shared(q) else "B") for q in ports)
             out += ("R" if b.is_running else "r") + held + o + "|"
     finally:
-        try: await b.stop()
+        try: await asyncio.wait_for(b.stop(), PATIENCE)
+        except asyncio.TimeoutError:
+            if "T|" not in out: out += "T|"             # the closing stop() of every sequence counts too
         except Exception: pass
         await settle()
         for s in foreign.values(): s.close()
@@ -115,14 +123,25 @@ async def run_seq(ports, acts):
             if t and not t.is_closing(): t.close()
         await settle()
     if late: out += "LATE=%d|" % late
+    if odd: out += "ODD=%s|" % odd[0]
     return out
 
 
-def spec_judge(n_ports, text):
+def spec_judge(n_ports, text, acts=None):
     """the property's clauses on the observed trace, independent of the model"""
     if "LATE=" in text: return "%s callback(s) made after stop() had returned" % text.split("LATE=")[1].rstrip("|")
-    for step in text.split("|")[:-1]:
-        if step == "?": continue
+    if "ODD=" in text: return "%s where only the error of a failed bind may leave start(), and nothing may leave stop() (trace %s)" % (text.split("ODD=")[1].rstrip("|"), text)
+    if "T|" in text: return "start() or stop() never returned (waited %d s; trace %s)" % (PATIENCE, text)
+    was = False
+    for a, step in zip([a for a in (acts or []) if a[0] != 5] or [None] * text.count("|"), text.split("|")[:-1]):
+        if step == "?": was = None; continue
+        if a is not None:         # the history clauses: stop() ends in 'not running'; a start() that returns has the bridge running; one that raises from 'not running' leaves it so
+            r = step[0] == "R"
+            if a[0] == 1 and r: return "is_running is True after stop() returned (%s)" % step
+            if a[0] == 0 and step[-1] == "s" and not r: return "start() returned normally but is_running is False (%s)" % step
+            if a[0] == 0 and step[-1] == "!" and was is False and r: return "start() raised but is_running is True (%s)" % step
+            if a[0] in (2, 3, 4, 6, 7) and was is not None and r != was: return "is_running changed from %s to %s without start() or stop() (%s)" % (was, r, step)
+            was = r
         run, held, o = step[0] == "R", step[1:1 + n_ports], step[-1]
         if run and any(h != "B" for h in held): return "is_running is True but not every configured port is held (%s)" % step
         if "S" in held: return "a port held by the bridge can be taken by a second listener (SO_REUSEPORT) (%s)" % step
@@ -134,9 +153,16 @@ def spec_judge(n_ports, text):
 def run_sequences(out, stream, n_ports, seqs):
     async def go():
         ports = world.free_udp_ports(n_ports); res = []
-        for s in seqs: res.append(await run_seq(ports, s))
+        for s in seqs:
+            if STUCK[0] >= 3: res.append(None); continue        # three sequences already ended in a start()/stop() that never returns: enough to report
+            t = await run_seq(ports, s); res.append(t)
+            if "T|" in t: STUCK[0] += 1
         return res
     io = asyncio.run(go())
+    if None in io:
+        out.notes.append("%d sequences of stream %s were not run after three had ended in a start() or stop() that never returned" % (io.count(None), stream))
+        keep = [j for j, t in enumerate(io) if t is not None]; seqs = [seqs[j] for j in keep]; io = [io[j] for j in keep]
+        if not seqs: return
     # the several-objects model (Model/MultiBridge.v) gives the expected trace, also for actions on other bridge objects (kinds 6, 7);
     # where only the observed object acts, the one-object model of theorem C17_lifecycle must say the same
     mo = lib.run_model([lib.req("bridge2", list(range(n_ports)), [[k, i] for k, i in s if k not in (5, 8)]) for s in seqs])
@@ -149,7 +175,7 @@ def run_sequences(out, stream, n_ports, seqs):
                      [mo[j] for j in plain], one, None, lambda c: "models on %s" % c["acts"])
     # real sockets: a port can be taken by another process between two probes.  A sequence whose trace differs from the model's or
     # fails the Spec is run once more on fresh ports; only what reproduces is reported
-    suspect = [k for k in range(len(seqs)) if io[k] != mo[k] or spec_judge(n_ports, io[k]) != "ok"]
+    suspect = [k for k in range(len(seqs)) if "T|" not in io[k] and (io[k] != mo[k] or spec_judge(n_ports, io[k], seqs[k]) != "ok")]
     if suspect:
         async def again():
             res = {}
@@ -163,7 +189,7 @@ def run_sequences(out, stream, n_ports, seqs):
     names = ["start", "stop", "occupy", "release", "send", "send-without-waiting", "stop-another-bridge-object", "another-bridge-object-fails-to-start", "start-cancelled-between-ports"]
     lib.differential(out, stream, cases, io, mo, ["ok"] * len(cases), lambda c: "%d ports: " % c["ports"] + ", ".join(names[k] + ("" if k < 2 else " %d" % i) for k, i in c["acts"]),
                      nontrivial=lambda c: any(k == 0 for k, _ in c["acts"]), sample=lambda c: c, classify=lambda c, i: "len%d" % len(c["acts"]),
-                     impl_spec=[spec_judge(n_ports, t) for t in io])
+                     impl_spec=[spec_judge(n_ports, t, s_) for t, s_ in zip(io, seqs)])
 
 
 async def context_form():
